@@ -62,6 +62,7 @@ impl Property for StoreProp {
             "C16" => "stores with 4 documents whose ids are byte-order neighbours of the key pool (0xFF-edged ids preferred), histories of writes, deletions, peers, policies, open/close, removal (refused while open) and re-creation; all observers (entries both index paths, heads, peers, policy, namespaces, content hashes) of all documents after every removal; non-trivial = a removal succeeded on a document that held entries",
             "C17" => "sequences of 1-30 peer registrations with strictly increasing times over 1-9 distinct peers and 3 documents (one unknown), interleaved reads, reopen; specification = five most recent distinct peers, most recent first; non-trivial = more than 5 distinct peers or a re-registration",
             "C15" => "random policies (both kinds, 0-3 exact/prefix filters incl. empty and non-UTF-8 bytes) set/read on existing and unknown documents with reopen; policy x key match decisions; filter text round trips and parsing of malformed filter strings; non-trivial = policy with at least one filter",
+            "C18" => "file stores built by histories of remote inserts (2 documents, 3 authors, deletion markers, equal timestamps) in which the head table and/or the by-key index are deleted with plain redb and the file is opened again 1-3 times; heads (timestamps and keys), key-ordered and latest-per-key queries, entries, peers, policies, namespaces and content hashes compared with the model (migration functions) and with the specifications (max timestamp; filter/sort/window); non-trivial = a derived table was dropped from a store with at least 2 entries",
             "C07" => "sequences of capability imports (read/write) over 3 documents, open/close, reopen, local insert/delete attempts and remote inserts; kinds listed after every step; non-trivial = a read-only document saw a write attempt or an upgrade",
             _ => "",
         }.to_string()
@@ -222,6 +223,33 @@ impl Property for StoreProp {
                 ops.push(Op::S(SOp::Observe { n: 0 }));
                 ops.push(Op::S(SOp::Observe { n: 1 }));
             }
+            "C18" => {
+                ops[0] = Op::S(SOp::Open { file: true });
+                for n in 0..2 {
+                    ops.push(Op::S(SOp::Import { n, write: true }));
+                }
+                for _ in 0..rng.range(2, 14 * scale) {
+                    ops.push(Op::S(gen_put(rng, 2, 3)));
+                }
+                if rng.chance(1, 3) {
+                    ops.push(Op::S(SOp::Peer { n: 0, t: 500, p: 1 }));
+                    ops.push(Op::S(SOp::SetPolicy { n: 1, pol: gen_pol(rng) }));
+                }
+                ops.push(Op::S(SOp::ObserveAll));
+                for _ in 0..rng.range(1, 3) {
+                    match rng.below(4) {
+                        0 => ops.push(Op::S(SOp::DropDerived { latest: true, by_key: false })),
+                        1 => ops.push(Op::S(SOp::DropDerived { latest: false, by_key: true })),
+                        2 => ops.push(Op::S(SOp::DropDerived { latest: true, by_key: true })),
+                        _ => ops.push(Op::S(SOp::Reopen)),
+                    }
+                    ops.push(Op::S(SOp::ObserveAll));
+                    if rng.chance(1, 3) {
+                        ops.push(Op::S(gen_put(rng, 2, 3)));
+                        ops.push(Op::S(SOp::ObserveAll));
+                    }
+                }
+            }
             _ => {
                 // C07
                 for _ in 0..rng.range(3, 16 * scale) {
@@ -371,6 +399,8 @@ impl Property for StoreProp {
                 let regs = ops.iter().filter(|o| matches!(o, Op::S(SOp::Peer { .. }))).count();
                 peers.len() > 5 || regs > peers.len()
             }
+            "C18" => ops.iter().any(|o| matches!(o, Op::S(SOp::DropDerived { .. })))
+                && lines.iter().filter(|l| l.op.starts_with("tputns") && l.imp.starts_with("inserted")).count() >= 2,
             "C15" => ops.iter().any(|o| match o {
                 Op::S(SOp::SetPolicy { pol, .. }) | Op::PolicyMatch { pol, .. } => !pol.filters.is_empty(),
                 Op::FilterText { .. } => true,
